@@ -300,8 +300,10 @@ bi31_next(bitint_iter_t *restrict iter, bitint31_t bi)
 			/* switch to negatives */
 			*iter = 33U;
 		}
-	} else if (*iter > 32 && *iter < 64 && (bi.neg >>= (*iter - 32U))) {
-		/* we're doing negatives alright */
+	} else if ((*iter > 32 || (*iter < 32U && (*iter = 33U))) &&
+		   *iter < 64 && (bi.neg >>= (*iter - 32U))) {
+		/* we're doing negatives alright
+		 * either after the positives or as there aren't any */
 		for (; !(bi.neg & 0b1U); (*iter)++, bi.neg >>= 1U);
 		res = 32 - (*iter)++;
 	} else {
